@@ -96,6 +96,8 @@ struct ObsState {
     // ---- daser's view (this epoch)
     attempts: BTreeMap<u64, Attempt>,
     ongoing: BTreeSet<u64>,
+    /// peers are connected as far as the node has been told (peer-tracker info published)
+    connected: bool,
     events: Option<EventSubscriber>,
     blockstore: Option<Arc<InMemoryBlockstore>>,
     removed: u64,
@@ -240,6 +242,17 @@ impl Obs {
         if let Some(h) = synced.range(from..=to).next() {
             ctx.violation("C24", "batch_shape", "overlaps_synced", format!("height {h} is already stored or pruned: {}", desc()));
         }
+        // ... and against the store itself (shadow model = exact acknowledged state): only the
+        // syncer inserts, and pruning only moves a height from stored to pruned, so a height that
+        // is pruned or stored now was in one of the syncer's two reads if they were a consistent pair
+        ctx.oracle("C24.batch_vs_store");
+        if let Some(h) = st.model.pruned.range(from..=to).next() {
+            ctx.violation("C24", "batch_vs_store", "requests_pruned_height",
+                format!("height {h} of the announced batch is pruned in the store (pruned {:?}): {}", compact(&st.model.pruned), desc()));
+        } else if let Some(h) = st.model.stored().range(from..=to).next() {
+            ctx.violation("C24", "batch_vs_store", "requests_stored_height",
+                format!("height {h} of the announced batch is stored (stored {:?}): {}", compact(&st.model.stored()), desc()));
+        }
         ctx.oracle("C24.placement");
         let max_synced = synced.iter().next_back().copied();
         let below_highest_range = |synced: &BTreeSet<u64>| {
@@ -305,7 +318,12 @@ impl Obs {
             ctx.violation("C33", "chosen_shares", "daser", format!("height {height}: {b}"));
         }
         st.attempts.insert(height, Attempt { ids, ..Default::default() });
-        st.ongoing.insert(height);
+        // An attempt that starts while a disconnection is published is dropped as soon as the
+        // daser notices it (it leaves its connected loop and forgets everything in progress);
+        // when it notices is not observable, so such an attempt does not count as "in progress".
+        if st.connected {
+            st.ongoing.insert(height);
+        }
         // ---- C34: never older than the sampling window
         ctx.oracle("C34.inside_window");
         if height <= self.chain.len() {
@@ -603,7 +621,7 @@ async fn run_node(ctx: &Arc<RunCtx>) {
     let batch_size = *ctx.pick("cfg.batch_size", &[8u64, 3, 16, 64]);
     let limit = ctx.range("cfg.limit", 1, 4) as usize;
     let extra = ctx.range("cfg.extra", 0, 3) as usize;
-    let store_delay = ctx.choose("cfg.store_delay", 4);
+    let store_delay = *ctx.pick("cfg.store_delay", &[0u32, 1, 2, 3, 30, 600]);
     let max_delay = ctx.range("cfg.net_delay_ms", 0, 1500) as u32;
     let p_drop = if ctx.coin("cfg.drops_on", 500) { ctx.range("cfg.p_drop", 10, 150) as u32 } else { 0 };
     let p_never = if ctx.coin("cfg.sample_loss_on", 500) { ctx.range("cfg.p_never", 10, 150) as u32 } else { 0 };
@@ -634,6 +652,7 @@ async fn run_node(ctx: &Arc<RunCtx>) {
             batches: 0,
             attempts: BTreeMap::new(),
             ongoing: BTreeSet::new(),
+            connected: true,
             events: None,
             blockstore: None,
             removed: 0,
@@ -727,6 +746,7 @@ async fn run_node(ctx: &Arc<RunCtx>) {
             st.announced.clear();
             st.attempts.clear();
             st.ongoing.clear();
+            st.connected = *net.connected.lock().unwrap();
             st.events = Some(events.subscribe());
             st.blockstore = Some(blockstore.clone());
             st.fatal.clear();
@@ -771,6 +791,7 @@ async fn run_node(ctx: &Arc<RunCtx>) {
                 faults_on = false;
                 *net.faults_on.lock().unwrap() = false;
                 *net.connected.lock().unwrap() = true;
+                obs.st.lock().unwrap().connected = true;
                 mock.set_peer_info(net.info());
                 disk.disarm();
                 ctx.ev("faults_stop", now_ms, 0);
@@ -908,12 +929,15 @@ async fn run_node(ctx: &Arc<RunCtx>) {
                         if churn && ctx.coin("churn.event", 40) {
                             let mut c = net.connected.lock().unwrap();
                             *c = !*c;
-                            if !*c {
-                                ctx.fault("all_peers_disconnected");
-                                obs.st.lock().unwrap().ongoing.clear();
-                            } else {
-                                ctx.fault("peers_reconnected");
+                            {
+                                let mut st = obs.st.lock().unwrap();
+                                st.connected = *c;
+                                if !*c {
+                                    st.ongoing.clear();
+                                }
                             }
+                            ctx.fault(if *c { "peers_reconnected" } else { "all_peers_disconnected" });
+                            ctx.ev("churn", *c as u64, 0);
                             drop(c);
                             mock.set_peer_info(net.info());
                         }
